@@ -71,7 +71,7 @@ theorem flags_even (r : LResp) : ∃ n, n < 16 ∧ r.flags = 2 * n := by
 
 /-- the uncompressed frame through the receive path -/
 theorem recvParse_plain (comp : Option Compress.Codec) (v : Nat) (r : LResp)
-    (hw : wf v r = true) (hc : noCollClassResp r = true)
+    (hw : wf v r = true)
     (hlen : (encodeBody v r).length ≤ Compress.maxFrameSize) :
     recvParse (Compress.newFramer comp (UInt8.ofNat v)) v (encodeFrame v r) = .ok (view v r, restOf r) := by
   have hv : 1 ≤ v ∧ v ≤ 5 := by
@@ -87,13 +87,13 @@ theorem recvParse_plain (comp : Option Compress.Codec) (v : Nat) (r : LResp)
   simp only [Compress.Framer.readFrame, hl1, hl2, if_false, Int.toNat_natCast, Nat.lt_irrefl, List.take_length, hnc,
     Bool.false_eq_true]
   have := parseResp_hdr v r [] ⟨UInt8.ofNat (v + 0x80), UInt8.ofNat r.flags, streamOf v r.stream, UInt8.ofNat r.body.opcode,
-    ((encodeBody v r).length : Int)⟩ false rfl (by simp) rfl hw hc
+    ((encodeBody v r).length : Int)⟩ false rfl (by simp) rfl hw
   simpa using this
 
 /-- the frame whose body went through a compressor, through the receive path of a connection that
     has that compressor -/
 theorem recvParse_compressed (c : Compress.Codec) (hrt : c.RoundTrips) (v : Nat) (r : LResp) (z : FrameRead.Bytes)
-    (hw : wf v r = true) (hc : noCollClassResp r = true)
+    (hw : wf v r = true)
     (hz : c.enc (encodeBody v r) = .ok z) (hlen : z.length ≤ Compress.maxFrameSize) :
     recvParse (Compress.newFramer (some c) (UInt8.ofNat v)) v (encodeFrameCompressed v r z) = .ok (view v r, restOf r) := by
   have hv : 1 ≤ v ∧ v ≤ 5 := by
@@ -110,7 +110,7 @@ theorem recvParse_compressed (c : Compress.Codec) (hrt : c.RoundTrips) (v : Nat)
   simp only [Compress.Framer.readFrame, hl1, hl2, if_false, Int.toNat_natCast, Nat.lt_irrefl, List.take_length, hnc,
     if_true, Compress.newFramer, hdec]
   have := parseResp_hdr v r [] ⟨UInt8.ofNat (v + 0x80), UInt8.ofNat (r.flags + 1), streamOf v r.stream, UInt8.ofNat r.body.opcode,
-    (z.length : Int)⟩ true rfl (by simp) rfl hw hc
+    (z.length : Int)⟩ true rfl (by simp) rfl hw
   simpa using this
 
 end C04
